@@ -4,7 +4,32 @@ import json, os
 HERE = os.path.dirname(os.path.dirname(os.path.abspath(__file__)))
 PY = "/venv/bin/python"
 
+NOTE = "Trusted: CPython, the reference NFA semantics (two formulations cross-checked in selftest), the AST order hook (repo suite passes through it). Nothing beyond the listed layers is claimed."
 CLAIMED = {
+ "C01": dict(
+   text="Bounded exhaustive exploration of the real code: every automaton of FA(2,{a,b},<=12) and FA(3,{a,b},<=3) modulo renaming (thorough: + FA(3,2,4), FA(3,1,<=6), FA(4,1,<=4)), "
+        "built as epsilon-NFA/NFA/DFA through add_* calls and through constructor arguments, under natural and salted global set orders and naming schemes int/str plus adversarial names "
+        "(mixed types, names equal to the library's merged-state names, TRASH/TrashNode/Empty) on complete small layers; accepts() compared on all words <=4 (+ foreign symbol, + epsilon spelling); "
+        "to_deterministic/remove_epsilon_transitions/minimize/copy compared by an exact product-BFS language equivalence and shape inspection.",
+   note=NOTE, technique="explicit-state enumeration of all small automata x order policies x naming schemes against a reference model (exact language equivalence)",
+   design="DESIGN.md §3 C01"),
+ "C02": dict(
+   text="Every ordered pair from the iso-reduced pools FA(2,{a,b},<=1) (quick) / FA(2,{a,b},<=2) (thorough), second operand also over {b,c}, {a} and mixed-type symbols, plus differential pairs "
+        "variant_u(X), variant_v(X) (identity / explicit sink / unreachable state / reachable dead state; equal languages by construction), in every class combination: is_equivalent_to and == "
+        "compared with an exact product-BFS equivalence; minimize() checked for language, reachability, pairwise distinguishability (own Moore refinement) and isomorphism across equivalent operands.",
+   note=NOTE, technique="explicit-state enumeration of all ordered pairs of small automata x order policies against an exact reference equivalence",
+   design="DESIGN.md §3 C02"),
+ "C03": dict(
+   text="Unary operations (complement, reverse, kleene_star and operator forms) on every epsilon-NFA of FA(2,2,<=12) and FA(3,2,<=3) modulo renaming; binary operations (intersection, difference, "
+        "union, concatenate and operator forms) on all ordered pairs of small pools with shared state names, overlapping/disjoint alphabets and the same object as both operands; every result "
+        "compared exactly (product BFS over subset automata) with the set-theoretic result, operands snapshotted before/after.",
+   note=NOTE, technique="explicit-state enumeration of all small operands / operand pairs x order policies against reference set algebra (exact)",
+   design="DESIGN.md §3 C03"),
+ "C06": dict(
+   text="to_regex() on every epsilon-NFA of FA(2,2,<=12) and FA(3,2,<=3) modulo renaming (thorough: up to 4 states), plain-token symbols, under natural and salted set orders (state elimination "
+        "order follows set order): the returned tree (walked through head/sons, own semantics), regex.accepts and regex.to_epsilon_nfa() are each compared exactly with the automaton's language.",
+   note=NOTE, technique="explicit-state enumeration of all small automata x elimination orders against a reference regex/NFA semantics (exact)",
+   design="DESIGN.md §3 C06"),
  "C04": dict(
    text="Bounded exhaustive exploration of the real code: every epsilon-NFA of the layers FA(2,{a,b},<=12 edges) and FA(3,{a,b},<=3 edges) "
         "(thorough: + FA(3,2,4), FA(3,1,<=6), FA(4,1,<=4)), modulo renaming, built as every class it is valid for, under natural set order and salted "
